@@ -15,24 +15,30 @@
                                    failing member (in rendering order)
 
    Part V — pyvis.make_pyvis_net (C15)
-     pyvis_nodes(_gen)             nodes = ids 0..n-1 in universe order
+     pyvis_nodes(_gen)             nodes = ids 0..n-1 in universe order (NoDup not even needed)
      pyvis_edges_oriented          every edge (i,j,arr) comes from a link e listed by member i whose
                                    v1 is member i and v2 is member j, arr = is_directed (class e)
+                                   (so EVERY edge, arrowed or not, runs v1 -> v2)
      pyvis_edges_are_real          the requested statement (corollary)
      pyvis_no_outside_vertex       node ids / edge endpoints are indices < number of members
-     pyvis_every_internal_link_joined   (link_inv) every link between two members leaves their
-                                   nodes joined, in some orientation (self-loops included)
-     pyvis_directed_count          the number of arrowed edges i->j = the number of directed links
-                                   from member i to member j (no de-duplication of directed links)
+     pyvis_every_internal_link_joined(_assoc)   (link_inv; only `assoc` is used) every link between
+                                   two members leaves their nodes joined in some orientation
+                                   (self-loops included)
+     pyvis_directed_count          count_occ of (i,j,true) = number of links of member i that are
+                                   directed from member i to member j (dir_link / dir_link_spec):
+                                   directed links are never de-duplicated
+     pyvis_reachable               all of the above, unconditionally, in every state run ops empty
 
    Part U — plantuml (C14)
-     puml_empty, puml_decls_exact, resolve_spec, puml_rels_exact, puml_rels_real,
-     puml_internal_link_once (+ puml_listed_link_once, puml_internal_link_ends),
-     member_links_perm (independence of the set iteration order),
-     resolve_conf0_* (default table), puml_unconfigured_link_raises, puml_unconfigured_vertex_raises
+     puml_empty, resolve_spec (+ resolve_none, mro_nodup), puml_decls_exact, puml_rels_exact,
+     puml_rels_end_classes, puml_rels_real,
+     puml_internal_link_once (+ puml_listed_link_once, puml_internal_link_ends,
+     puml_internal_link_count), member_links_perm (independence of the set iteration order),
+     resolve_conf0_* (default table), puml_unconfigured_link_raises,
+     puml_unconfigured_vertex_raises, puml_other_link_raises
 
    Non-vacuity: render_example (a two-vertex universe with a directed, an undirected and a
-   self-loop link, all three renderings computed).                                              *)
+   self-loop link, all three renderings computed), render_example_hyps.                         *)
 From Coq Require Import String Ascii List Lia Permutation Sorted.
 From EG Require Import Base Lemmas State Nbrs Trav Struct LinkProofs UniProofs LinkStep Render.
 Import ListNotations.
